@@ -89,6 +89,21 @@ PROPS['C15'] = {
                     'HMAC-SHA256/80 unforgeability is NOT proved (cannot be): tamper rejection is decided only as "returns iff tag matches"'],
 }
 
+PROPS['C08'] = {
+    'sidecars': ['contracts/C08_iq.py'],
+    'level': 'proof',
+    'explanation': 'Both iq registries (YowProtocolLayer for library-internal requests, YowInterfaceLayer for application requests) under '
+                   'contract with the registry abstracted as a finite map id -> (request, onSuccess, onError); every postcondition speaks '
+                   'about the WHOLE map: _sendIq adds exactly the entry (before the stanza goes down), processIqRegistry on a reply removes '
+                   'exactly that entry BEFORE dispatch and invokes exactly the matching callback once with (reply, original request); unknown '
+                   'ids, replayed replies and non-iq stanzas invoke nothing, leave the map unchanged and continue as ordinary stanzas '
+                   '(receive: handler / entity callback / toUpper exactly once). The history claim (any interleaving of k outstanding requests '
+                   'and replies) follows by induction over these per-operation contracts. NOT yet under contract: the per-kind continuations '
+                   'of the protocol layers (transport half: that each sendIq registers both a success and an error continuation).',
+    'assumptions': ['entity.getId/getTag/getType are pure getters (same entity, same answer); callbacks and handlers are opaque calls that '
+                    'may raise; toLower/toUpper opaque', 'ProtocolEntity._generateId uniqueness is not covered here'],
+}
+
 NOT_APPLICABLE = {
     'C11': 'quantifies over thread interleavings (2-4 sender threads through lock/queue operations); no verifier available here '
            'has a thread or permission model and sequential contracts cannot express "for every schedule" (DESIGN.md section 8)',
